@@ -4,8 +4,11 @@ import Schc.Properties.C01
 import Schc.Properties.C02
 import Schc.Properties.C03
 import Schc.Properties.C04
+import Schc.Properties.C07
+import Schc.Properties.C08
 import Schc.Properties.C10
 import Schc.Properties.C11
+import Schc.Properties.C14
 import Schc.Properties.C15
 import Schc.Properties.C16
 import Schc.Properties.C17
